@@ -722,4 +722,21 @@ theorem concInv_reach (s : MSt) (h : Reach s) : ConcInv s := by
   | init c => exact concInv_init c
   | step l _ hst ih => exact concInv_step _ _ l hst ih
 
+/-! ### running a list of labels (for the non-vacuity examples) -/
+
+def runL (s : MSt) : List MLabel → Option MSt
+  | [] => some s
+  | l :: ls => match step s l with
+    | some s' => runL s' ls
+    | none => none
+
+theorem reach_runL (s : MSt) (ls : List MLabel) (s' : MSt) (hs : Reach s) (h : runL s ls = some s') : Reach s' := by
+  induction ls generalizing s with
+  | nil => simp only [runL, Option.some.injEq] at h; exact h ▸ hs
+  | cons l ls ih =>
+    simp only [runL] at h
+    split at h
+    · rename_i s1 h1; exact ih s1 (Reach.step l hs h1) h
+    · cases h
+
 end BRV.BlockMgr
